@@ -26,6 +26,7 @@ LEVEL_TEXT = ("All delimiter words <= 4 (quick) / 5 under four prefixes and both
 LEVEL_NOTE = ("Wrong-typed arguments are outside 'arguments of the documented types'; they are executed and counted, not judged. Only NULL "
               "returns of the PYMEM_DOMAIN_MEM allocator are injected (the writer's malloc/realloc), not object allocation failures.")
 BACKENDS = ("c", "py")
+PAIR_PASS = True   # BFS: on every seed, every ordered pair of operations on one object
 RULE = ("cases = (input, accessor sweep) | (route, word) | (state, accessor sweep) | (config, long input, allocation index k); non-trivial = at "
         "least one accessor raises or the input is rejected, or the fault was actually injected; states = distinct stored 5-tuples observed.")
 ASSUMPTIONS = ["the allocator hook sees every allocation the quoter performs through cpython.mem (checked: the number of calls grows with the input)"]
@@ -115,6 +116,24 @@ def state_invariant(acc, u, trace):
     ops_ = trace[1]
     enc = any("encoded=True" in n for n in ops_)
     judge(acc, "trace", (trace[0], list(ops_)), u, bool(ops_) and not enc)
+
+
+def pair_invariant(acc, r, trace):
+    """Light judgement for the pair pass: the result must stringify and its most derived views must not leak foreign exceptions."""
+    enc = any("encoded=True" in n for n in trace[1])
+    bad = []
+    for name, f in (("__str__", r.__str__), ("query", lambda: list(r.query.items())), ("human_repr", r.human_repr), ("authority", lambda: r.authority),
+                    ("parent", lambda: r.parent), ("__hash__", r.__hash__)):
+        try:
+            f()
+        except (ValueError, TypeError) as e:
+            if name == "__str__" and not enc:
+                bad.append((name, type(e).__name__))
+        except Exception as e:  # noqa: BLE001
+            bad.append((name, type(e).__name__))
+    if bad:
+        acc.viol("trace", (trace[0], list(trace[1])), observed={"bad": bad}, expected="values or ValueError/TypeError; returned objects stringify",
+                 msg="%r then %r: %r" % (trace[0], trace[1], bad))
 
 
 def edge_exception(acc, u, name, exc, trace):
@@ -329,6 +348,7 @@ def plan(ctx):
         tasks.append(("checks.C19", "task_wrongtypes", (), b, "w"))
     spaces = [("F1", 1), ("X2", 2)] + ([] if quick else [("K3", 4), ("F2", 6)])
     tasks += sweep.plan_routes("checks.C19", routes.NAMES, spaces)
+    tasks += sweep.plan_routes("checks.C19", routes.NAMES_SUB, [("F1", 1), ("X2", 2)])
     q, _ = impl.discover_quoter_configs(ctx.build["pkg"])
     for name in q:
         tasks.append(("checks.C19", "task_faults", (name, quick), "c", "f"))
